@@ -13,6 +13,8 @@ engine.ensure_deps()
 print('dependency rlibs ready in', engine.VDEPS)
 PY
 if [ -x replay/build.sh ]; then replay/build.sh; fi
+# second flavour of the witness binary (nightly-only containers of dryoc; used by the `serde` configuration)
+VERIF_WITNESS_FLAVOUR=nightly python3 replay/run_witness.py C16 --tier quick >/dev/null 2>&1 || true
 # warm the Kani build cache (dependency artefacts only; every check re-snapshots the crate itself)
 python3 - <<'PY'
 import sys
